@@ -3,6 +3,7 @@ package peer
 
 import (
 	"context"
+	"errors"
 	"fmt"
 	"log/slog"
 	"math/rand"
@@ -16,6 +17,11 @@ import (
 	"github.com/postalsys/muti-metroo/internal/transport"
 	"github.com/postalsys/muti-metroo/internal/verifhook"
 )
+
+// errDisconnectedLocally is reported to OnPeerDisconnect for a connection that
+// Disconnect / DisconnectAll closed when the callback runs before the
+// connection's read loop has noticed the close.
+var errDisconnectedLocally = errors.New("connection closed locally")
 
 // PeerInfo contains information about a configured peer.
 type PeerInfo struct {
@@ -70,6 +76,17 @@ type Manager struct {
 	peerInfos   map[string]*PeerInfo // Address -> PeerInfo
 	reconnector *Reconnector
 
+	// awaitingTeardown holds connections that Disconnect / DisconnectAll took
+	// out of peers without running OnPeerDisconnect: the callback is left to
+	// the connection's read loop, which reports the close later. The value is
+	// true once the callback has been run on the connection's behalf by
+	// registerConnection (the peer reconnected first). Guarded by mu.
+	awaitingTeardown map[*Connection]bool
+	// registerMu serializes registerConnection. A registration may first have
+	// to finish the teardown of an earlier connection to the same peer, and no
+	// other connection to that peer may get registered while that runs.
+	registerMu sync.Mutex
+
 	ctx    context.Context
 	cancel context.CancelFunc
 	wg     sync.WaitGroup
@@ -85,13 +102,14 @@ func NewManager(cfg ManagerConfig) *Manager {
 	}
 
 	m := &Manager{
-		cfg:        cfg,
-		handshaker: NewHandshaker(cfg.LocalID, cfg.DisplayName, cfg.Capabilities, cfg.HandshakeTimeout),
-		logger:     logger,
-		peers:      make(map[identity.AgentID]*Connection),
-		peerInfos:  make(map[string]*PeerInfo),
-		ctx:        ctx,
-		cancel:     cancel,
+		cfg:              cfg,
+		handshaker:       NewHandshaker(cfg.LocalID, cfg.DisplayName, cfg.Capabilities, cfg.HandshakeTimeout),
+		logger:           logger,
+		peers:            make(map[identity.AgentID]*Connection),
+		peerInfos:        make(map[string]*PeerInfo),
+		awaitingTeardown: make(map[*Connection]bool),
+		ctx:              ctx,
+		cancel:           cancel,
 	}
 
 	// Create reconnector with callback to this manager
@@ -186,6 +204,7 @@ func (m *Manager) Accept(ctx context.Context, peerConn transport.PeerConn) (*Con
 // registerConnection adds a connection to the manager.
 func (m *Manager) registerConnection(conn *Connection) {
 	defer verifhook.At("peer.register.done", m, conn)
+	m.registerMu.Lock()
 	m.mu.Lock()
 	// Reject new registrations after the manager has been canceled (Close
 	// runs cancel() then waits on wg). Calling wg.Add concurrently with
@@ -194,6 +213,7 @@ func (m *Manager) registerConnection(conn *Connection) {
 	select {
 	case <-m.ctx.Done():
 		m.mu.Unlock()
+		m.registerMu.Unlock()
 		conn.Close()
 		return
 	default:
@@ -204,14 +224,47 @@ func (m *Manager) registerConnection(conn *Connection) {
 		// Keep the existing connection, close the new one
 		// This prevents connection churn when both sides connect simultaneously
 		m.mu.Unlock()
+		m.registerMu.Unlock()
 		conn.Close()
 		return
 	}
+
+	// Earlier connections to this peer that Disconnect / DisconnectAll dropped
+	// and whose read loop has not reported the close yet: OnPeerDisconnect has
+	// not run for them. Once conn is registered their late handleDisconnect
+	// counts as superseded and must not run the callback any more (it cleans
+	// up by peer identity), so what was set up over them would stay forever.
+	// Run the callback for them now, before conn is registered and starts
+	// reading: the clean-up cannot touch anything that belongs to conn.
+	var stale []*Connection
+	for old, done := range m.awaitingTeardown {
+		if !done && old.RemoteID == conn.RemoteID {
+			m.awaitingTeardown[old] = true
+			stale = append(stale, old)
+		}
+	}
+	if len(stale) > 0 && m.cfg.OnPeerDisconnect != nil {
+		m.mu.Unlock()
+		for _, old := range stale {
+			m.cfg.OnPeerDisconnect(old, errDisconnectedLocally)
+		}
+		m.mu.Lock()
+		select {
+		case <-m.ctx.Done():
+			m.mu.Unlock()
+			m.registerMu.Unlock()
+			conn.Close()
+			return
+		default:
+		}
+	}
+
 	m.peers[conn.RemoteID] = conn
 	// Add to the WaitGroup under m.mu so Close (which also takes m.mu before
 	// calling wg.Wait below) cannot race the Add with the Wait.
 	m.wg.Add(2)
 	m.mu.Unlock()
+	m.registerMu.Unlock()
 
 	go m.readLoop(conn)
 	go m.keepaliveLoop(conn)
@@ -235,6 +288,10 @@ func (m *Manager) handleDisconnect(conn *Connection, err error) {
 	// superseded (e.g. its keepalive timed out, the peer reconnected, and only
 	// now the old read loop reports its error). The peer is not disconnected.
 	superseded := ok && existing != conn
+	// Disconnect / DisconnectAll left the callback to this call; if the peer
+	// reconnected in the meantime registerConnection has already run it.
+	callbackDone, _ := m.awaitingTeardown[conn]
+	delete(m.awaitingTeardown, conn)
 
 	// Find the peer info using the config address (original dial address).
 	// This is necessary because RemoteAddr() returns the resolved IP,
@@ -249,7 +306,7 @@ func (m *Manager) handleDisconnect(conn *Connection, err error) {
 	// Notify callback. The callback cleans up by peer identity (routes, relays),
 	// so it must not run for a superseded connection: that would wipe the state
 	// of the live connection.
-	if m.cfg.OnPeerDisconnect != nil && !superseded {
+	if m.cfg.OnPeerDisconnect != nil && !superseded && !callbackDone {
 		m.cfg.OnPeerDisconnect(conn, err)
 	}
 
@@ -460,6 +517,7 @@ func (m *Manager) Disconnect(id identity.AgentID) error {
 	conn, ok := m.peers[id]
 	if ok {
 		delete(m.peers, id)
+		m.awaitingTeardown[conn] = false
 	}
 	m.mu.Unlock()
 
@@ -539,6 +597,7 @@ func (m *Manager) DisconnectAll() error {
 	conns := make([]*Connection, 0, len(m.peers))
 	for _, conn := range m.peers {
 		conns = append(conns, conn)
+		m.awaitingTeardown[conn] = false
 	}
 	m.peers = make(map[identity.AgentID]*Connection)
 	m.mu.Unlock()
